@@ -111,3 +111,10 @@ Theorem C11_source_normalization : forall obs,
   (forall mn mx xs, gen_norm_obs mn mx xs = norm_with mn mx xs).
 Proof. intro obs. exact (conj (norm_irr_is_source obs) gen_norm_obs_is_model). Qed.
 Print Assumptions C11_source_normalization.
+(* dense data: each dimension's grid standardised with its own minimum and maximum; the model is the translated source *)
+Theorem C11_source_normalization_dense : forall xs,
+  gen_norm_dense xs = norm_dense xs /\ length (norm_dense xs) = length xs.
+Proof. intro xs. exact (conj (gen_norm_dense_is_model xs) (norm_dense_length xs)). Qed.
+Print Assumptions C11_source_normalization_dense.
+Example C11_norm_dense_example : (norm_dense [2; 3; 6] = [0; 1 # 4; 1] /\ norm_dense [6; 2; 3] = [1; 0; 1 # 4])%Q.
+Proof. vm_compute. split; reflexivity. Qed.
